@@ -34,6 +34,7 @@ const (
 type lzIn struct {
 	kind lzKind
 	slot int
+	kidx int // index of the key within its slot (1 only for the second key of a colliding pair)
 	key  string
 	tok  string
 	e    int64 // write: expiry the entry gets
@@ -47,11 +48,41 @@ type lzOut struct {
 	notFound bool
 }
 
+// lzState is the state of one slot: up to two keys (a hash-colliding pair shares a slot; whether
+// writing one key displaces the other one is left open: "a collision may at most cost a miss").
 type lzState struct {
+	ent [2]lzEnt
+}
+
+type lzEnt struct {
 	present bool
-	key     string
 	tok     string
 	e       int64
+}
+
+func lzVariants(s lzState, i int, alts []lzEnt) []lzState {
+	out := make([]lzState, 0, len(alts))
+
+	for _, a := range alts {
+		t := s
+		t.ent[i] = a
+		out = append(out, t)
+	}
+
+	return out
+}
+
+// lzBatch applies a per-entry transition (returning the possible next entries) to both entries.
+func lzBatch(s lzState, f func(e lzEnt) []lzEnt) []interface{} {
+	var out []interface{}
+
+	for _, a := range f(s.ent[0]) {
+		for _, b := range f(s.ent[1]) {
+			out = append(out, lzState{ent: [2]lzEnt{a, b}})
+		}
+	}
+
+	return out
 }
 
 var lzModel = (&porcupine.NondeterministicModel{
@@ -60,12 +91,22 @@ var lzModel = (&porcupine.NondeterministicModel{
 		s := state.(lzState)
 		in := input.(lzIn)
 		out := output.(lzOut)
+		i := in.kidx
+		cur := s.ent[i]
 
 		switch in.kind {
 		case lzWrite:
-			return []interface{}{lzState{present: true, key: in.key, tok: in.tok, e: in.e}}
+			s.ent[i] = lzEnt{present: true, tok: in.tok, e: in.e}
+			if s.ent[1-i].present {
+				dropped := s
+				dropped.ent[1-i] = lzEnt{}
+
+				return []interface{}{s, dropped}
+			}
+
+			return []interface{}{s}
 		case lzRead:
-			if !s.present || s.key != in.key {
+			if !cur.present {
 				if out.rk == rkNotFound {
 					return []interface{}{s}
 				}
@@ -76,22 +117,24 @@ var lzModel = (&porcupine.NondeterministicModel{
 			// The clock is frozen within a phase, so an entry expired by a concurrent ExpireAll has
 			// E == now exactly; a real reader's "now" may lie anywhere in its call interval, hence
 			// both outcomes are linearizable at E == now (the strict boundary is checked by C07/C10).
-			mayBeExpired := s.e != 0 && s.e <= in.now
-			mayBeFresh := s.e == 0 || s.e >= in.now
+			mayBeExpired := cur.e != 0 && cur.e <= in.now
+			mayBeFresh := cur.e == 0 || cur.e >= in.now
 
-			if mayBeExpired && out.rk == rkExpired && out.tok == s.tok && out.e == s.e {
+			if mayBeExpired && out.rk == rkExpired && out.tok == cur.tok && out.e == cur.e {
 				return []interface{}{s}
 			}
 
-			if mayBeFresh && out.rk == rkHit && out.tok == s.tok {
+			if mayBeFresh && out.rk == rkHit && out.tok == cur.tok {
 				return []interface{}{s}
 			}
 
 			return nil
 		case lzDelete:
-			if s.present && s.key == in.key {
+			if cur.present {
 				if !out.notFound {
-					return []interface{}{lzState{}}
+					s.ent[i] = lzEnt{}
+
+					return []interface{}{s}
 				}
 
 				return nil
@@ -103,28 +146,41 @@ var lzModel = (&porcupine.NondeterministicModel{
 
 			return nil
 		case lzExpireAll:
-			if s.present {
-				s.e = in.now
-			}
+			return lzBatch(s, func(e lzEnt) []lzEnt {
+				if !e.present {
+					return []lzEnt{e}
+				}
 
-			return []interface{}{s}
+				t := e
+				t.e = in.now
+
+				if e.e != 0 && e.e < in.now {
+					return []lzEnt{e, t} // already expired: keeps its older expiry or gets the ExpireAll instant
+				}
+
+				return []lzEnt{t}
+			})
 		case lzDeleteAll:
 			return []interface{}{lzState{}}
 		case lzCleanup:
-			if s.present {
-				return []interface{}{s, lzState{}}
-			}
+			return lzBatch(s, func(e lzEnt) []lzEnt {
+				if e.present {
+					return []lzEnt{e, {}}
+				}
 
-			return []interface{}{s}
+				return []lzEnt{e}
+			})
 		case lzExpunge:
 			// removes exactly the entries expired longer than DeleteExpiredAfter (in.e carries the boundary)
-			if s.present && s.e != 0 && s.e < in.e {
-				return []interface{}{lzState{}}
-			}
+			return lzBatch(s, func(e lzEnt) []lzEnt {
+				if e.present && e.e != 0 && e.e < in.e {
+					return []lzEnt{{}}
+				}
 
-			return []interface{}{s}
+				return []lzEnt{e}
+			})
 		case lzObserve:
-			if s.present && s.key == in.key && s.tok == out.tok && s.e == out.e {
+			if cur.present && cur.tok == out.tok && cur.e == out.e {
 				return []interface{}{s}
 			}
 
@@ -242,6 +298,7 @@ func propLinearizable(c *Case) {
 		walks   []walkObs
 		tokens  = map[string]bool{}
 		lens    []int
+		dups    []walkDup
 	)
 
 	limit := uint64(0)
@@ -313,7 +370,7 @@ func propLinearizable(c *Case) {
 							call := atomic.AddInt64(&stamp, 1)
 							_ = be.Write(ttlCtx(o.ttl), k, tok)
 							ret := atomic.AddInt64(&stamp, 1)
-							record(cid, lzIn{kind: lzWrite, slot: o.slot, key: string(key), tok: tok, e: e, now: now}, lzOut{}, call, ret)
+							record(cid, lzIn{kind: lzWrite, slot: o.slot, kidx: o.kidx, key: string(key), tok: tok, e: e, now: now}, lzOut{}, call, ret)
 						case lzRead:
 							call := atomic.AddInt64(&stamp, 1)
 							r := be.Read(bg, k)
@@ -330,12 +387,12 @@ func propLinearizable(c *Case) {
 								out.rk = rkNotFound
 							}
 
-							record(cid, lzIn{kind: lzRead, slot: o.slot, key: string(key), now: now}, out, call, ret)
+							record(cid, lzIn{kind: lzRead, slot: o.slot, kidx: o.kidx, key: string(key), now: now}, out, call, ret)
 						case lzDelete:
 							call := atomic.AddInt64(&stamp, 1)
 							err := be.Delete(bg, k)
 							ret := atomic.AddInt64(&stamp, 1)
-							record(cid, lzIn{kind: lzDelete, slot: o.slot, key: string(key), now: now}, lzOut{notFound: errors.Is(err, cache.ErrNotFound)}, call, ret)
+							record(cid, lzIn{kind: lzDelete, slot: o.slot, kidx: o.kidx, key: string(key), now: now}, lzOut{notFound: errors.Is(err, cache.ErrNotFound)}, call, ret)
 						case lzExpireAll, lzDeleteAll, lzCleanup:
 							call := atomic.AddInt64(&stamp, 1)
 
@@ -409,15 +466,23 @@ func propLinearizable(c *Case) {
 		seen := map[string]bool{}
 
 		for i, r := range w.rows {
-			c.Assert(!seen[r.key], "walk-dup", "Walk visited key %s twice", keyName([]byte(r.key)))
+			if seen[r.key] {
+				dups = append(dups, walkDup{w: w, key: r.key})
+			}
+
 			seen[r.key] = true
 
 			s, ok := slotOf[r.key]
 			c.Assert(ok, "walk-phantom-key", "Walk reported key %s that was never written", keyName([]byte(r.key)))
 			c.Assert(tokens[gstr(r.val)], "walk-phantom-value", "Walk reported value %v that was never stored", r.val)
+			ki := 0
+			if len(slotKeys[s]) > 1 && string(slotKeys[s][1]) == r.key {
+				ki = 1
+			}
+
 			history = append(history, porcupine.Operation{
 				ClientId: w.client, Call: w.call, Return: w.stamps[i],
-				Input:  lzIn{kind: lzObserve, slot: s, key: r.key},
+				Input:  lzIn{kind: lzObserve, slot: s, kidx: ki, key: r.key},
 				Output: lzOut{tok: gstr(r.val), e: r.e},
 			})
 		}
@@ -425,9 +490,26 @@ func propLinearizable(c *Case) {
 
 	// per-slot partitions
 	parts := make([][]porcupine.Operation, nslots)
+
+
 	for _, op := range history {
 		s := op.Input.(lzIn).slot
 		parts[s] = append(parts[s], op)
+	}
+
+	// a key re-written during a walk is a new entry and may be visited again; an entry that exists
+	// unchanged for the whole walk is visited exactly once
+	for _, d := range dups {
+		mutated := false
+
+		for _, op := range parts[slotOf[d.key]] {
+			k := op.Input.(lzIn).kind
+			if k != lzRead && k != lzObserve && op.Call <= d.w.ret && op.Return >= d.w.call {
+				mutated = true
+			}
+		}
+
+		c.Assert(mutated, "walk-dup", "Walk [%d,%d] visited key %s twice although nothing changed it during the walk", d.w.call, d.w.ret, keyName([]byte(d.key)))
 	}
 
 	overlapMut := false
@@ -534,6 +616,11 @@ func propLinearizable(c *Case) {
 			}
 		}
 	}
+}
+
+type walkDup struct {
+	w   walkObs
+	key string
 }
 
 type walkObs struct {
